@@ -136,7 +136,7 @@ func ascending(l []int) bool {
 }
 
 func configOf(c *Case) Config {
-	cfg := Config{Mode: c.Mode, Produces: c.Produces, Where: c.Where, Responses: [][]string{c.Responses}}
+	cfg := Config{Mode: c.Mode, Produces: c.Produces, Where: c.Where, Responses: [][]string{c.Responses}, Hostile: c.Hostile}
 	if c.Auth != nil {
 		cfg.AuthCtor, cfg.AuthRealm, cfg.AuthAlts = c.Auth.Ctor, c.Auth.Realm, c.Auth.Alts
 	}
@@ -472,6 +472,8 @@ func main() {
 	surfaceSweep(r, done, outcomes, accepts)
 	edgeSweep(r, done)
 	seqSweep(r, done)
+	orderSweep(r, done, named)
+	hostileSweep(r, done, named, accepts)
 
 	for _, k := range sortedKeys(total) {
 		r.Outcome(k, total[k])
@@ -501,7 +503,7 @@ func main() {
 		"recording producers never fail; Accept headers are well-formed, parameter-free and use q in tenths (C07 owns the rest); produces entries are lower case",
 		"typed entry point = the call sequence of a go-swagger generated handler (RouteInfo, Authorize, BindValidRequest, Respond) written in the harness",
 	)
-	r.Finish("every element of the stated products (sweeps main, deep-accept [thorough], auth, auth-alts, surface, default-realm, edge) is served once by the real Context (APIHandler of the untyped API; the typed call sequence ending in Context.Respond; sweep surface: the same call sequence behind a hand-written RoutableAPI served by NewRoutableContext, Context.Respond called directly without a matched route, Context.NotFound) and judged by the reference; sweep seq: every ordered pair (thorough: also every ordered triple over a smaller alphabet) of steps (operation x handler outcome x Accept x entry point) over a description whose operations have no / a duplicated / a distinct operationId and declare different success codes and produces lists is served by ONE fresh Context, plus one walk per description that passes through every ordered pair on a single Context; every step is judged by the reference AND must give exactly the observation (status, headers, body, producer / Responder / error-responder calls) the same step gives as the first request of a fresh instance; one evaluation = one request; non-trivial = at least one MUST clause of the property applied to the case (its situation label does not start with 'may/') or, in sweep seq, the request was not the first one of its Context (cases are distinct by construction: the enumerator never repeats a (configuration, request, outcome, entry point) tuple nor a sequence)", true)
+	r.Finish("every element of the stated products (sweeps main, deep-accept [thorough], auth, auth-alts, surface, default-realm, edge, order3, hostile) is served once by the real Context (APIHandler of the untyped API; the typed call sequence ending in Context.Respond; sweep surface: the same call sequence behind a hand-written RoutableAPI served by NewRoutableContext, Context.Respond called directly without a matched route, Context.NotFound) and judged by the reference; sweep seq: every ordered pair (thorough: also every ordered triple over a smaller alphabet) of steps (operation x handler outcome x Accept x entry point) over a description whose operations have no / a duplicated / a distinct operationId and declare different success codes and produces lists is served by ONE fresh Context, plus one walk per description that passes through every ordered pair on a single Context; every step is judged by the reference AND must give exactly the observation (status, headers, body, producer / Responder / error-responder calls) the same step gives as the first request of a fresh instance; sweep order3: every ordered list of exactly 3 distinct produces entries (the API default first, in the MIDDLE, last or absent) is the produces argument of Context.Respond (typed call sequence, and direct calls without a matched route); sweep hostile: a hostile caller asks API.ProducersFor for every non-empty subset of the registered media types and overwrites every map it is given and every slice it passed in (also the produces argument of Respond, once Respond has returned) - between the registrations and NewContext or right after NewContext, and again after every request - and every response must still be written by the producer REGISTERED for the negotiated type; one evaluation = one request; non-trivial = at least one MUST clause of the property applied to the case (its situation label does not start with 'may/') or, in sweep seq, the request was not the first one of its Context (cases are distinct by construction: the enumerator never repeats a (configuration, request, outcome, entry point) tuple nor a sequence)", true)
 }
 
 func countAscending(ls [][]int) int {
@@ -768,6 +770,113 @@ func seqSweep(r *report.R, done func(*shardStats, int)) {
 			st.outcomes["deviation/"+class+"/long-history"]++
 		}
 		done(st, 500000+ci)
+	})
+}
+
+// ---- sweep "order3": where the API default stands in an explicitly ordered produces list ----
+//
+// Lists of one and two entries (sweep main, quick) have no MIDDLE position. Here every
+// ordered list of exactly three distinct entries is handed to Context.Respond by the entry
+// points whose list order the harness owns (a list declared in the description loses its
+// order in go-openapi/analysis): the reference offers the API default last wherever it is
+// listed, so on an Accept tie every other listed type that has a producer wins over it.
+func orderSweep(r *report.R, done func(*shardStats, int), named func([]int) []string) {
+	var ls [][]int
+	for _, l := range lists(len(producesAlphabet), 3) {
+		if len(l) == 3 {
+			ls = append(ls, l)
+		}
+	}
+	entries := []struct{ via, direct string }{{"typed", ""}, {"direct", "nil-route"}, {"direct", "empty-route"}}
+	outcomes := []string{"string", "responder", "err-api"}
+	resp := [][]string{{"200"}}
+	r.Set("axes_order3", map[string]any{
+		"produces_lists":   fmt.Sprintf("every ordered list of exactly 3 distinct entries of the produces alphabet: %d (the API default first / in the middle / last / absent)", len(ls)),
+		"modes":            modes,
+		"accept_headers":   renderAll(acceptsMain),
+		"handler_outcomes": outcomes,
+		"entry_points":     []string{"typed", "direct nil-route", "direct empty-route"},
+		"method":           "GET",
+		"responses":        resp,
+	})
+	enum.Parallel(len(ls), r.OutOfTime, func(i int) {
+		produces := named(ls[i])
+		doc, regs := loadDoc(Config{Produces: produces, Where: "op", Responses: resp})
+		for _, mode := range modes {
+			e := buildEnvWith(Config{Mode: mode, Produces: produces, Where: "op", Responses: resp, NoDocs: true}, doc, regs)
+			st := &shardStats{outcomes: map[string]int64{}}
+			c := Case{Sweep: "order3", Mode: mode, Produces: produces, Where: "op", Responses: resp[0], Target: "op", Method: "GET"}
+			for _, en := range entries {
+				c.Via, c.Direct = en.via, en.direct
+				for _, acc := range acceptsMain {
+					c.NoAccept, c.Accept = acc == nil, acc
+					for _, oc := range outcomes {
+						c.Outcome = oc
+						st.run(r, e, &c)
+					}
+				}
+			}
+			done(st, 700000+i)
+		}
+	})
+}
+
+// ---- sweep "hostile": the caller treats what the API hands out as its own ----
+//
+// See env.hostile. The event happens between the registrations and NewContext (so the
+// routes are built afterwards) or right after NewContext, and again after every request;
+// all requests of a shard are served by ONE Context. The oracle is the ordinary reference:
+// the body is written by the producer registered for the negotiated type (identity), so a
+// map of the API that the caller could reach shows as a foreign producer or as none.
+func hostileSweep(r *report.R, done func(*shardStats, int), named func([]int) []string, accepts [][]Range) {
+	ls := lists(len(producesAlphabet), 2)
+	when := []string{"before-context", "after-context"}
+	resp := [][]string{{"200"}, {"204"}}
+	outcomes := []string{"string", "nil", "responder", "err-api"}
+	methods := []string{"GET", "HEAD"}
+	entries := []struct{ via, direct string }{{"untyped", ""}, {"typed", ""}, {"direct", "nil-route"}}
+	r.Set("axes_hostile", map[string]any{
+		"event":            "API.ProducersFor asked for every non-empty subset of the registered media types (3 or 7 subsets); every entry of every returned map replaced by a foreign producer, a foreign key added, the argument slice overwritten; the produces slice handed to Respond overwritten after Respond returned",
+		"event_at":         when,
+		"and":              "after every request (one Context per (list, mode, event_at))",
+		"produces_lists":   fmt.Sprintf("every ordered list of 0..2 entries declared on the operation: %d (untyped entry point: the ascending ones)", len(ls)),
+		"modes":            modes,
+		"accept_headers":   renderAll(accepts),
+		"handler_outcomes": outcomes,
+		"methods":          methods,
+		"responses":        resp,
+		"entry_points":     []string{"untyped", "typed", "direct nil-route"},
+	})
+	enum.Parallel(len(ls), r.OutOfTime, func(i int) {
+		produces := named(ls[i])
+		doc, regs := loadDoc(Config{Produces: produces, Where: "op", Responses: resp})
+		for _, mode := range modes {
+			for _, w := range when {
+				e := buildEnvWith(Config{Mode: mode, Produces: produces, Where: "op", Responses: resp, NoDocs: true, Hostile: w}, doc, regs)
+				st := &shardStats{outcomes: map[string]int64{}}
+				c := Case{Sweep: "hostile", Mode: mode, Produces: produces, Where: "op", Target: "op", Hostile: w}
+				for _, en := range entries {
+					if en.via == "untyped" && !ascending(ls[i]) {
+						continue
+					}
+					c.Via, c.Direct = en.via, en.direct
+					for _, acc := range accepts {
+						c.NoAccept, c.Accept = acc == nil, acc
+						for _, rs := range resp {
+							c.Responses = rs
+							for _, m := range methods {
+								c.Method = m
+								for _, oc := range outcomes {
+									c.Outcome = oc
+									st.run(r, e, &c)
+								}
+							}
+						}
+					}
+				}
+				done(st, 710000+i)
+			}
+		}
 	})
 }
 
